@@ -303,6 +303,94 @@ theorem callables_allocated_by_runs :
 /-- **frame fact 6**: what is stored into the shared constant table is known (and immutable) -/
 theorem general_stores_known : generalStores = knownGeneralStores := by decide
 
+/-! ## Values made by a run never outlive it in the artefact
+
+A function value made by a run carries that run's globals. Three statements about the abstract
+`ValueMachine` (Model/Runs.lean), then the regenerated fact that ties them to the Go code. -/
+
+/-- the frame of the machine that makes a fresh value at every use (the code: `OpLoadFunc` builds
+a new `callable` from `vm.env.globals` each time) -/
+def freshValueFrame (K : ValueMachine) : Frame (K.machine false) K.Core where
+  core := fun sh => sh.1
+  pres := fun _ _ => rfl
+  det := by
+    intro sh sh' l h
+    show K.use sh.1 l (K.pick false sh l) = K.use sh'.1 l (K.pick false sh' l)
+    have h' : sh.1 = sh'.1 := h
+    simp [ValueMachine.pick, h']
+
+/-- **values made afresh by every run do not interfere**, whatever they capture -/
+theorem fresh_values_do_not_interfere (K : ValueMachine) (sched : List Nat) (s : Sys (K.machine false))
+    (i : Nat) (h0 : s.trace = []) :
+    observe i (runSched sched s) = observe 0 (runAlone i sched s) :=
+  noninterference (freshValueFrame K) sched s i h0
+
+/-- the frame of the keeping machine when the kept value does not depend on the run that made it -/
+def keptValueFrame (K : ValueMachine) (hind : K.RunIndependent) : Frame (K.keeping hind) K.Core where
+  core := fun sh => sh.1.1
+  pres := fun _ _ => rfl
+  det := by
+    intro sh sh' l h
+    have h' : sh.1.1 = sh'.1.1 := h
+    have e : ∀ (x : K.Kept), x.1.2.getD (K.make x.1.1 l) = K.make x.1.1 l := by
+      intro x
+      cases hx : x.1.2 with
+      | none => rfl
+      | some w => exact x.2 w hx l
+    show K.use sh.1.1 l (sh.1.2.getD (K.make sh.1.1 l)) = K.use sh'.1.1 l (sh'.1.2.getD (K.make sh'.1.1 l))
+    rw [e sh, e sh', h']
+
+/-- **an artefact may keep a value that no run can tell apart from the one it would make itself**
+(a memo of something computed from the code alone) -/
+theorem kept_run_independent_value_is_safe (K : ValueMachine) (hind : K.RunIndependent)
+    (sched : List Nat) (s : Sys (K.keeping hind)) (i : Nat) (h0 : s.trace = []) :
+    observe i (runSched sched s) = observe 0 (runAlone i sched s) :=
+  noninterference (keptValueFrame K hind) sched s i h0
+
+/-- **but not a value that captures the run that made it**: run 0 (global 2) makes the function
+value and the artefact keeps it; run 1 (global 3) is handed run 0's value and shows 2, where alone
+it shows 3. This is `fn.value.Store(&callable{fn: fn, vars: vm.env.globals})`. -/
+theorem kept_per_run_value_interferes :
+    ¬ ∀ (sched : List Nat) (s : Sys (capture.machine true)) (i : Nat), s.trace = [] →
+        observe i (runSched sched s) = observe 0 (runAlone i sched s) := by
+  intro h
+  have := h [0, 1] ⟨((), none), [((2 : Int), (0 : Int)), (3, 0)], []⟩ 1 rfl
+  exact absurd this (by decide)
+
+-- non-vacuity: the same two runs on the machine that makes a fresh value: run 1 shows its own global;
+-- and `capture` is not run independent, a constant-valued machine is
+example : observe (M := capture.machine false) 1 (runSched [0, 1] ⟨((), none), [((2 : Int), (0 : Int)), (3, 0)], []⟩)
+    = (some ((3 : Int), (3 : Int)), [(3 : Int)]) := by decide
+example : ¬ capture.RunIndependent := fun h => absurd (h () (2, 0) (3, 0)) (by decide)
+example : (⟨Unit, Int × Int, Int, Int, fun _ _ => 7, fun _ l v => ((l.1, v), [v])⟩ : ValueMachine).RunIndependent :=
+  fun _ _ _ => rfl
+
+/-- the write sites that store, into a location of the compiled artefact proper (anything but a
+`callable`, which is itself made by a run: `callables_allocated_by_runs`), a value whose type can
+carry the state of one run (`StoredValue.perRun`: it is or reaches `env`, `VM`, `callable`, a
+`reflect.Value`, an interface, a func) -/
+def perRunStoresIntoArtefact : List StoredValue :=
+  storedValues.filter (fun w => w.perRun && w.root != "callable")
+
+/-- the one exception: `fn.argsPool.Put(args)` — a `[]reflect.Value` still holding this call's
+arguments. Harmless because no slot is read before it is overwritten (`args_pool_overwritten_before_use`,
+`args_pool_uses_known`, `no_put_reachable_after_go`; the toy machine's `fill`). -/
+def knownPerRunStores : List StoredValue := [
+  ⟨"(*VM).callNative", "NativeFunction", "NativeFunction.argsPool", "fn.argsPool", "[]reflect.Value", true, "b6e422a8054a"⟩]
+
+/-- **frame fact 7**: `storedValues` describes exactly the write sites -/
+theorem stored_values_cover_write_sites :
+    storedValues.map (fun w => (w.fn, w.target, w.lhs, w.hash)) = writeSites.map (fun s => (s.fn, s.target, s.lhs, s.hash)) := by
+  decide
+
+/-- **frame fact 8 — no shared location holds a per-run value**: no statement of the run-time
+code stores a value that can carry a run's state (a callable with the run's globals, the env, a
+VM, a reflect.Value, a closure) into a `Function`, `NativeFunction`, `Registers`, `Global`,
+`Program` or `Template`, the pooled argument slice excepted. With `callables_allocated_by_runs`
+and `general_stores_known` this is the hypothesis `keep = false` of `fresh_values_do_not_interfere`;
+`kept_per_run_value_interferes` is what happens otherwise. -/
+theorem no_shared_location_holds_per_run_value : perRunStoresIntoArtefact = knownPerRunStores := by decide
+
 /-! ## State across runs: where a variable's storage comes from
 
 The only channel through which storage allocated at BUILD time reaches every run is
